@@ -5,6 +5,7 @@ import (
 	"errors"
 	"fmt"
 	"os"
+	"path/filepath"
 	"strings"
 
 	"github.com/vektra/mockery/v3/config"
@@ -123,9 +124,20 @@ func NewInterfaceCollection(
 	}
 }
 
+// absFilePath returns the absolute form of an output file path, so that one
+// file is recognised as such however its directory is spelled in the config
+// (relative to the working directory or absolute).
+func absFilePath(p *pathlib.Path) string {
+	abs, err := filepath.Abs(p.String())
+	if err != nil {
+		return p.String()
+	}
+	return abs
+}
+
 func (i *InterfaceCollection) Append(ctx context.Context, iface *config.Interface) error {
-	collectionFilepath := i.outFilePath.String()
-	interfaceFilepath := iface.Config.FilePath().String()
+	collectionFilepath := absFilePath(i.outFilePath)
+	interfaceFilepath := absFilePath(iface.Config.FilePath())
 	log := zerolog.Ctx(ctx).With().
 		Str(logging.LogKeyInterface, iface.Name).
 		Str("collection-pkgname", i.outPkgName).
@@ -270,9 +282,12 @@ func (r *RootApp) Run() error {
 			filePath := ifaceConfig.FilePath().Clean()
 			ifaceLog.Info().Str("collection", filePath.String()).Msg("adding interface to collection")
 
-			_, ok := mockFileToInterfaces[filePath.String()]
+			// Collections are keyed by the absolute path: two spellings of one
+			// file must not become two collections that overwrite each other.
+			fileKey := absFilePath(filePath)
+			_, ok := mockFileToInterfaces[fileKey]
 			if !ok {
-				mockFileToInterfaces[filePath.String()] = NewInterfaceCollection(
+				mockFileToInterfaces[fileKey] = NewInterfaceCollection(
 					iface.Pkg.PkgPath,
 					filePath,
 					iface.Pkg,
@@ -280,7 +295,7 @@ func (r *RootApp) Run() error {
 					*ifaceConfig.Template,
 				)
 			}
-			if err := mockFileToInterfaces[filePath.String()].Append(
+			if err := mockFileToInterfaces[fileKey].Append(
 				ctx,
 				config.NewInterface(
 					iface.Name,
